@@ -34,3 +34,18 @@ PROPS["C12"] = dict(
     assumptions=["epochs < 2^62", "stamps passed to Modular are 4-bit field values of epochs <= current+1 (what the code stores)"],
     loops="Modular::max folds over the 3-element array of its only call site: fully unwound (unwind 5) with unwinding assertions on => complete",
 )
+
+_T11 = ["t_u8", "t_u16", "t_u32", "t_u64", "t_u128", "t_a32", "t_a64", "t_a4096"]
+_F11 = ["null", "is_null", "tag", "high_tag", "as_raw", "with_tag", "with_high_tag", "ptr_eq", "free_with_tag", "twin", "deref_real"]
+PROPS["C11"] = dict(
+    title="tagging never corrupts the address; internal epoch bits invisible",
+    level="proof",
+    modules=["pointers_h.rs"],
+    contract_groups=["tagged"],
+    kani=dict(quick=["pointers_h.rs::%s::%s" % (t, f) for t in _T11 for f in _F11] + ["pointers_h.rs::rawshared_forwards"]),
+    functions_under_contract=["Tagged<T>::{null,is_null,tag,high_tag,as_raw,with_tag,with_high_tag,deref,deref_mut,as_ref,ptr_eq,from}", "pointers::with_tag", "pointers::low_bits (through its callers)", "RawShared::{tag,with_tag,as_raw,ptr_eq}"],
+    expected_obligations=["C11.roundtrip.tag_truncated_to_alignment", "C11.with_tag.address_unchanged", "C11.timestamp.invisible_to_ptr_eq",
+                          "C11.timestamp.invisible_to_is_null", "C11.null.tagged_timestamped_null_is_null", "C11.deref.ignores_tag_and_timestamp"],
+    trusted_base=[A_TOOLS, A_ADDR],
+    assumptions=["alignments are the enumerated set {1,2,4,8,16,32,64,4096}; words/tags/timestamps range over all of usize per alignment", A_ADDR],
+)
